@@ -1188,7 +1188,8 @@ def main():
     failed = []
     sys.path.insert(0, os.path.dirname(os.path.abspath(__file__)))
     import ctx2lean   # the state machine (statement-level translation); shares this module's helpers
-    gens = GENERATORS + [('Ctx.lean', ctx2lean.gen_ctx)]
+    import codec2lean  # the frame codec, same machinery
+    gens = GENERATORS + [('Ctx.lean', ctx2lean.gen_ctx), ('CodecGen.lean', codec2lean.gen_codec)]
     for name, fn in gens:
         try:
             text = fn(repo)
